@@ -6,7 +6,8 @@ import IceProofs.Sys2C01LiveFairMain
 pending), provided the provenance facts that `ReadyD` made vacuous hold on the state: `PendAgreeD` (a request in
 flight whose transaction is a pending USE-CANDIDATE transaction of the controlling agent is that agent's own
 nomination request, over a `Link`) and `¬ NomSeenD ∨ DPYD` (no selection and no answer to a nomination yet, or the controlled agent has a selected pair too, or its own
-check on the pair it marked is in flight and young enough to complete).  It also contains `KnownSrc`.
+check on the pair it marked is in flight and young enough to complete).  (`KnownSrc` is no longer part of it: a forced
+tick of the controlling agent after a peer-reflexive discovery is handled as a tick, `Sys2C01LiveFairSys`.)
 -/
 namespace IceProofs.C01Live
 open IceModel.AgentCore IceModel.Sys2 IceProofs.Sys2Run IceProofs.C01 IceProofs.Agent IceProofs.C03
@@ -176,8 +177,7 @@ theorem PendAgreeD.agree {s : Sys} {c : Bool} (h : PendAgreeD s c) : PendAgree s
 /-! ## the start condition -/
 
 /-- **the start condition of a fair suffix** (decidable): as `ReadyD`, but instead of "the controlling agent has no
-selected pair and no USE-CANDIDATE transaction pending": `PendAgreeD`, and `¬ NomSeenD ∨ DPYD` (latency bound `L`); and the
-controlling agent knows every address its peer can appear from (`KnownSrc`). -/
+selected pair and no USE-CANDIDATE transaction pending": `PendAgreeD`, and `¬ NomSeenD ∨ DPYD` (latency bound `L`). -/
 def ReadyF (pre : List SysEv) (c : Bool) (T0 H L : Nat) (s : Sys) : Prop :=
   s.hasB = true ∧ (∀ x, (s.agent x).controlling = (x == c)) ∧
   (∀ x, (s.agent x).remoteUfrag = (s.agent (!x)).localUfrag) ∧ (∀ x, (s.agent x).remotePwd = (s.agent (!x)).localPwd) ∧
@@ -187,18 +187,17 @@ def ReadyF (pre : List SysEv) (c : Bool) (T0 H L : Nat) (s : Sys) : Prop :=
   PendAgreeD s c ∧ (¬ NomSeenD c s ∨ DPYD c L s) ∧
   T0 ≤ s.now ∧ s.now ≤ H ∧ TickSoon s.now (s.agent c) ∧
   (∀ la ∈ localAddrsOf c pre, ∀ x ∈ localAddrsOf c pre, (x, mappedL s.nat la) ∈ s.blocked) ∧
-  (∀ x ∈ localAddrsOf (!c) pre, ((s.agent (!c)).localByAddr x).isSome = true) ∧
-  KnownSrc c s
+  (∀ x ∈ localAddrsOf (!c) pre, ((s.agent (!c)).localByAddr x).isSome = true)
 
 instance (pre : List SysEv) (c : Bool) (T0 H L : Nat) (s : Sys) : Decidable (ReadyF pre c T0 H L s) := by
   unfold ReadyF Disj FilterOK
   infer_instance
 
-/-- `ReadyD` states in which the controlling agent knows its peer's addresses are `ReadyF` -/
-theorem ReadyD.readyF {pre : List SysEv} {c : Bool} {T0 H : Nat} {s : Sys} (h : ReadyD pre c T0 H s) (hk : KnownSrc c s)
+/-- `ReadyD` states are `ReadyF` -/
+theorem ReadyD.readyF {pre : List SysEv} {c : Bool} {T0 H : Nat} {s : Sys} (h : ReadyD pre c T0 H s)
     (L : Nat) : ReadyF pre c T0 H L s := by
   obtain ⟨r1, r2, r3, r4, r5, r6, r7, r8, r9, r10, r11, r12, r13, r14, r15, r16⟩ := h
-  refine ⟨r1, r2, r3, r4, r5, r6, r7, r8, r9, ?_, Or.inl ?_, r12, r13, r14, r15, r16, hk⟩
+  refine ⟨r1, r2, r3, r4, r5, r6, r7, r8, r9, ?_, Or.inl ?_, r12, r13, r14, r15, r16⟩
   · intro d _
     unfold PendAgreeD1
     split
@@ -216,13 +215,14 @@ theorem ReadyD.readyF {pre : List SysEv} {c : Bool} {T0 H : Nat} {s : Sys} (h : 
 /-- a reachable state satisfying `ReadyF` satisfies the invariant of a fair suffix, with the provenance of an existing
 selection -/
 theorem ready_finv {s0 : Sys} {pre : List SysEv} (hi : Sys.Init s0) (hf : FreshSel s0) (hs : LocalsSane s0.nat pre)
-    {c : Bool} {T0 H L : Nat} (hr : ReadyF pre c T0 H L (Sys.runs s0 pre)) :
+    {c : Bool} {T0 H L J : Nat} (hr : ReadyF pre c T0 H L (Sys.runs s0 pre))
+    (hfuel : J < 99998 * Config.minInterval ((Sys.runs s0 pre).agent c).cfg) (hj : J < maxBindingRequestTimeout) :
     FInv s0.nat s0.blocked (SLof s0.nat pre false) (SLof s0.nat pre true) (SRof s0.nat pre) s0.a.cfg.lite s0.b.cfg.lite
-      T0 H c (Sys.runs s0 pre) ∧ (NomSeen c (Sys.runs s0 pre) → DPY c L (Sys.runs s0 pre)) := by
-  obtain ⟨r1, r2, r3, r4, r5, r6, r7, r8, r9, r10, r11, r12, r13, r14, r15, r16, r17⟩ := hr
+      T0 H J c (Sys.runs s0 pre) ∧ (NomSeen c (Sys.runs s0 pre) → DPY c L (Sys.runs s0 pre)) := by
+  obtain ⟨r1, r2, r3, r4, r5, r6, r7, r8, r9, r10, r11, r12, r13, r14, r15, r16⟩ := hr
   obtain ⟨tn, tb, _⟩ := Sys.runs_topology s0 pre
   refine ⟨⟨⟨reach_inv hi hs (fun e he => he), ⟨SLof_sane, SLof_SRof, ?_, ?_⟩, c06_runs (c06_init hi hf) pre,
-    fun x => (r7 x).good, ⟨r1, r2, r3, r4, r5, r6⟩, fun d hd => (r8 d hd).ok, r9, r10.agree, r12, r13⟩, ?_, r17⟩, ?_⟩
+    fun x => (r7 x).good, ⟨r1, r2, r3, r4, r5, r6⟩, fun d hd => (r8 d hd).ok, r9, r10.agree, r12, r13⟩, ?_, hfuel, hj⟩, ?_⟩
   · intro la x hla hx
     have : ∀ y, (if c then SLof s0.nat pre true else SLof s0.nat pre false) y → y ∈ localAddrsOf c pre := by
       intro y hy; cases c <;> exact hy.2
